@@ -333,6 +333,78 @@ fn cycles_probe() {
     println!("{{\"probe\":\"cycles\",\"summary\":true,\"checked\":{},\"failures\":{}}}", checked, fails);
 }
 
+// ---------------------------------------------------------------- logs.rs: record format round trip through the exported type (C18; bounded)
+// Every record is built the way logs::meta / Display for Meta write it ("@@REDO:<kind>:<pid>:<ts %.4>@@ <text>"), parsed by
+// the real Meta::parse, re-formatted by the real Display, and -- for "done" records -- split by the real done_text().
+fn logmeta_probe() {
+    use redo::logs::Meta;
+    let kinds = ["do", "done", "check", "unchanged", "error", "warning", "debug", "locked", "waiting", "unlocked", "x"];
+    let pids: [i32; 5] = [1, 7, 4242, 99999, i32::MAX];
+    let stamps: [(&str, f64); 4] = [("0.0000", 0.0), ("1.0000", 1.0), ("1790755100.1235", 1790755100.1235), ("12.5000", 12.5)];
+    let texts = ["", "t", "a b", " lead", "trail ", "dir/x y.o", "@@ x", "@@REDO:do:1:1.0000@@ t", "x:y", "caf\u{e9}", "-9 t", "a  b"];
+    let mut statuses: Vec<i32> = (-255..=255).collect();
+    statuses.extend_from_slice(&[256, 1000, 32768, -32768, i32::MAX, i32::MIN, 206, 207, 208]);
+    let names = ["t", "a b", " lead", "trail ", "dir/x y.o", "-1", "7 x", "caf\u{e9}", ""];
+    let mut checked = 0u64;
+    let mut fails = 0u64;
+    let mut report = |input: &str, observed: &str, expected: &str, clause: &str, fails: &mut u64| {
+        if *fails < 40 {
+            println!(
+                "{{\"probe\":\"logmeta\",\"input\":\"{}\",\"output\":\"{}\",\"expected\":\"{}\",\"clause\":\"{}\"}}",
+                esc(input.as_bytes()), esc(observed.as_bytes()), esc(expected.as_bytes()), clause
+            );
+        }
+        *fails += 1;
+    };
+    for kind in kinds.iter() {
+        for pid in pids.iter() {
+            for (ts_text, ts) in stamps.iter() {
+                for text in texts.iter() {
+                    let line = format!("@@REDO:{}:{}:{}@@ {}", kind, pid, ts_text, text);
+                    checked += 1;
+                    match Meta::parse(&line) {
+                        Ok(m) => {
+                            if m.kind() != *kind || m.pid().as_raw() != *pid || m.text() != *text || (m.timestamp() - ts).abs() > 0.00005 {
+                                let got = format!("kind={} pid={} ts={} text={}", m.kind(), m.pid().as_raw(), m.timestamp(), m.text());
+                                report(&line, &got, "the fields as written", "record.parse_inverts_format", &mut fails);
+                            }
+                            let again = m.to_string();
+                            if again != line {
+                                report(&line, &again, &line, "record.format_is_prefix_meta_sep_text", &mut fails);
+                            }
+                        }
+                        Err(e) => report(&line, &format!("Err({})", e), "Ok", "record.parse_inverts_format", &mut fails),
+                    }
+                }
+            }
+        }
+    }
+    for rv in statuses.iter() {
+        for name in names.iter() {
+            let line = format!("@@REDO:done:4242:12.5000@@ {} {}", rv, name);
+            checked += 1;
+            match Meta::parse(&line) {
+                Ok(m) => match m.done_text() {
+                    Some((r, n)) if r == *rv && n == *name => {}
+                    other => report(&line, &format!("{:?}", other), &format!("Some(({}, {:?}))", rv, name), "done.parse_inverts_format", &mut fails),
+                },
+                Err(e) => report(&line, &format!("Err({})", e), "Ok", "record.parse_inverts_format", &mut fails),
+            }
+        }
+    }
+    // a record of another kind is never a done record
+    for kind in kinds.iter().filter(|k| **k != "done") {
+        let line = format!("@@REDO:{}:1:1.0000@@ 0 t", kind);
+        checked += 1;
+        if let Ok(m) = Meta::parse(&line) {
+            if m.done_text().is_some() {
+                report(&line, "Some", "None", "done.parse_inverts_format", &mut fails);
+            }
+        }
+    }
+    println!("{{\"probe\":\"logmeta\",\"summary\":true,\"checked\":{},\"failures\":{}}}", checked, fails);
+}
+
 fn main() {
     match env::args().nth(1).as_deref() {
         Some("tokens-exit") => tokens_exit(),
@@ -341,8 +413,9 @@ fn main() {
         Some("cycles") => cycles_probe(),
         Some("normpath") => normpath_probe(),
         Some("relpath") => relpath_probe(),
+        Some("logmeta") => logmeta_probe(),
         _ => {
-            eprintln!("usage: redo-replay tokens-exit|tokens-steps|deps|cycles|normpath|relpath");
+            eprintln!("usage: redo-replay tokens-exit|tokens-steps|deps|cycles|normpath|relpath|logmeta");
             std::process::exit(2);
         }
     }
